@@ -44,4 +44,33 @@ theorem runChunks_flatten : ∀ (cs : List (List UInt8)) (d : Utf8),
       rcases hx : update d1 cs.flatten with ⟨d2, e2, cps2⟩
       cases e2 <;> simp
 
+/-- the decoder without callback runs the same state machine and reports nothing -/
+theorem updateNoCb_eq : ∀ (bs : List UInt8) (d : Utf8), updateNoCb d bs = ((update d bs).1, (update d bs).2.1)
+  | [], d => by simp [updateNoCb, update]
+  | b :: rest, d => by
+    simp only [updateNoCb, update]
+    rcases hb : updateByte d b with ⟨d1, e1, cp⟩
+    cases e1 with
+    | some e => simp
+    | none =>
+      dsimp only
+      rw [updateNoCb_eq rest d1]
+
+theorem runChunksNoCb_eq : ∀ (cs : List (List UInt8)) (d : Utf8), runChunksNoCb d cs = (runChunks d cs).1
+  | [], d => by simp [runChunksNoCb, runChunks]
+  | c :: cs, d => by
+    simp only [runChunksNoCb, runChunks, updateNoCb_eq c d]
+    rcases hc : update d c with ⟨d1, e1, cps⟩
+    cases e1 with
+    | some e => simp
+    | none =>
+      dsimp only
+      rw [runChunksNoCb_eq cs d1]
+
+theorem decodeUtf8NoCb_eq (bs : List UInt8) : decodeUtf8NoCb bs = (decodeUtf8 bs).1 := by
+  unfold decodeUtf8NoCb decodeUtf8
+  rw [updateNoCb_eq]
+  rcases hc : update Utf8.init bs with ⟨d1, e1, cps⟩
+  cases e1 <;> simp
+
 end AwsVerif.Proofs.C05
